@@ -237,7 +237,8 @@ def metadata(ctx, prog, A):
     for c in f.calls():
         if (c.extra.get('callee') or '').startswith('llvm.memcpy'):
             d, s = P.addr(c.ops[0]), P.addr(c.ops[1])
-            if d[1] == ('A', 'ts'):
+            ta = strip_casts(P.expr(ft[0].ops[1])) if ft and len(ft[0].ops) > 1 else None
+            if ta is not None and ta[0] == 'addr' and ta[1][0] == 'A' and d[1] == ta[1]:      # the array handed to futimens()
                 idx = d[2][0][1] if d[2] else 0
                 srcs[idx] = addr_key(s)
     ctx.ob('C17.meta', 'futimens() receives {st_atim, st_mtim}', f.loc(ft[0]),
